@@ -1070,3 +1070,147 @@ Section UnitTree.
       rewrite !xbytes_cons, xbytes_app, !app_length. rewrite nlen_app in Hb. unfold nlen in *. lia.
   Qed.
 End UnitTree.
+
+(* ------------------------------------------------------------------ *)
+(** * Every input: no cursor step panics or runs out of model fuel *)
+
+(* the reader invariant established by EntriesRaw::new on a slice shorter than 2^63 bytes *)
+Definition state_ok (r : raw_st) : Prop := nlen (r_in r) <= r_end r /\ depth_ok (r_depth r) (r_in r).
+
+Lemma depth_ok_shorter d a b : (length b <= length a)%nat -> depth_ok d a -> depth_ok d b.
+Proof. unfold depth_ok, nlen. intros H [A B]. split; lia. Qed.
+
+Lemma read_entry_inv dbg e tbl r : state_ok r ->
+  match read_entry dbg e tbl r with
+  | Ok (ok, d, r') => state_ok r' /\ d_depth d = r_depth r /\ (length (r_in r') < length (r_in r))%nat
+  | Err _ => True
+  | Panic => False
+  | OutOfFuel => False
+  end.
+Proof.
+  intros [Hle [D1 D2]]. unfold read_entry, next_offset, chk_sub.
+  replace (nlen (r_in r) <=? r_end r) with true by lia. cbn [bind].
+  unfold read_abbreviation. pose proof (read_uleb128_res dbg (r_in r)) as [U1 U2].
+  destruct (read_uleb128 dbg (r_in r)) as [[code rest]| | |] eqn:E1; cbn [bind]; try congruence; try exact I.
+  apply read_uleb128_skip, skip_leb_shrinks in E1.
+  assert (Hl : nlen rest + 1 <= nlen (r_in r)) by (unfold nlen; lia).
+  destruct (code =? 0).
+  - rewrite chk_s_ok by lia. cbn [bind r_in r_end r_depth d_depth]. unfold state_ok, depth_ok. cbn [r_in r_end r_depth].
+    repeat split; lia.
+  - destruct (tbl_get tbl code) as [a|]; cbn [bind]; [|exact I].
+    assert (Hd : exists d', (if ab_children a then chk_s 64 dbg (r_depth r + 1) else Ok (r_depth r)) = Ok d' /\
+                            (r_depth r <= d' <= r_depth r + 1)%Z).
+    { destruct (ab_children a); [rewrite chk_s_ok by lia|]; eexists; split; try reflexivity; lia. }
+    destruct Hd as (d' & -> & Hd'). cbn [bind r_in r_end r_depth].
+    unfold read_attrs. pose proof (read_attributes_res (ab_specs a) dbg e rest) as [A1 A2].
+    destruct (read_attributes dbg e (ab_specs a) rest) as [[vs rest']| | |] eqn:E2; cbn [bind]; try congruence; try exact I.
+    apply read_attributes_length in E2. cbn [d_depth]. unfold state_ok, depth_ok. cbn [r_in r_end r_depth].
+    unfold nlen in *. repeat split; lia.
+Qed.
+
+Definition cursor_ok (c : cursor) : Prop :=
+  state_ok (c_raw c) /\ depth_ok (d_depth (c_cur c)) (r_in (c_raw c)).
+
+Lemma next_entry_inv dbg e tbl c : cursor_ok c ->
+  match next_entry dbg e tbl c with
+  | Ok (SOk true c') => cursor_ok c' /\ (length (r_in (c_raw c')) < length (r_in (c_raw c)))%nat
+  | Ok (SOk false c') => cursor_ok c' /\ r_in (c_raw c') = []
+  | Ok (SErr _ c') => cursor_ok c' /\ r_in (c_raw c') = []
+  | Err _ => False
+  | Panic => False
+  | OutOfFuel => False
+  end.
+Proof.
+  intros [Hs Hc]. unfold next_entry. destruct (raw_is_empty (c_raw c)) eqn:Em.
+  - unfold raw_is_empty in Em. destruct (r_in (c_raw c)) eqn:Ei; [|discriminate].
+    split; [|exact Ei]. split; cbn [c_raw c_cur set_null d_depth]; [exact Hs|rewrite Ei in *; exact Hc].
+  - pose proof (read_entry_inv dbg e tbl (c_raw c) Hs) as H.
+    destruct (read_entry dbg e tbl (c_raw c)) as [[[ok d] r']|x| |]; try contradiction.
+    + destruct H as (H1 & H2 & H3). split; [|exact H3]. split; cbn [c_raw c_cur]; [exact H1|].
+      rewrite H2. destruct Hs as [_ Hd]. apply (depth_ok_shorter _ (r_in (c_raw c))); [lia|exact Hd].
+    + destruct Hs as [Hle Hd]. unfold next_offset, chk_sub. replace (nlen (r_in (c_raw c)) <=? r_end (c_raw c)) with true by lia.
+      cbn [bind]. split; [|reflexivity]. split; cbn [c_raw c_cur r_in r_end r_depth d_depth]; unfold state_ok; cbn [r_in r_end r_depth].
+      * split; [change (nlen (@nil byte)) with 0; lia|]. apply (depth_ok_shorter _ (r_in (c_raw c))); [cbn; lia|exact Hd].
+      * apply (depth_ok_shorter _ (r_in (c_raw c))); [cbn; lia|exact Hd].
+Qed.
+
+Lemma next_dfs_inv dbg e tbl : forall fuel c, cursor_ok c -> (length (r_in (c_raw c)) < fuel)%nat ->
+  match next_dfs fuel dbg e tbl c with
+  | Ok (SOk _ c') | Ok (SErr _ c') => cursor_ok c' /\ (length (r_in (c_raw c')) <= length (r_in (c_raw c)))%nat
+  | _ => False
+  end.
+Proof.
+  induction fuel as [|fuel IH]; intros c Hc Hf; [lia|]. cbn [next_dfs].
+  pose proof (next_entry_inv dbg e tbl c Hc) as H.
+  destruct (next_entry dbg e tbl c) as [[[|] c'|x c']| | |]; cbn [bind]; try contradiction.
+  - destruct H as [H1 H2]. destruct (negb (is_null (c_cur c'))); [split; [exact H1|lia]|].
+    specialize (IH c' H1 ltac:(lia)).
+    destruct (next_dfs fuel dbg e tbl c') as [[o c''|x c'']| | |]; try contradiction; (split; [tauto|lia]).
+  - destruct H as [H1 H2]. split; [exact H1|rewrite H2; cbn; lia].
+  - destruct H as [H1 H2]. split; [exact H1|rewrite H2; cbn; lia].
+Qed.
+
+Lemma sibling_jump_inv dbg r cur : state_ok r -> depth_ok (d_depth cur) (r_in r) ->
+  exists r', sibling_jump dbg r cur = Ok r' /\ state_ok r' /\ (length (r_in r') <= length (r_in r))%nat.
+Proof.
+  intros Hs Hc. unfold sibling_jump. destruct (d_children cur); [|exists r; split; [reflexivity|split; [exact Hs|lia]]].
+  destruct (die_sibling cur) as [o|]; [|exists r; split; [reflexivity|split; [exact Hs|lia]]].
+  unfold seek_forward, next_offset, chk_sub. destruct Hs as [Hle Hd].
+  replace (nlen (r_in r) <=? r_end r) with true by lia. cbn [bind].
+  destruct (o <? r_end r - nlen (r_in r)); cbn [bind]; [exists r; split; [reflexivity|split; [split; assumption|lia]]|].
+  pose proof (skip_n_res (o - (r_end r - nlen (r_in r))) (r_in r)) as [S1 S2].
+  destruct (skip_n (o - (r_end r - nlen (r_in r))) (r_in r)) as [rest|x| |] eqn:E; cbn [bind]; try congruence.
+  - apply skip_n_spec in E. destruct E as (hd & E & _). eexists. split; [reflexivity|].
+    assert (L : (length rest <= length (r_in r))%nat) by (rewrite E, app_length; lia).
+    split; [|exact L]. split; cbn [r_in r_end r_depth]; [unfold nlen in *; lia|].
+    apply (depth_ok_shorter _ (r_in r)); assumption.
+  - exists r. split; [reflexivity|split; [split; assumption|lia]].
+Qed.
+
+Lemma sibling_loop_inv dbg e tbl T : forall fuel c, cursor_ok c -> (length (r_in (c_raw c)) < fuel)%nat ->
+  match sibling_loop fuel dbg e tbl T c with
+  | Ok (SOk _ c') | Ok (SErr _ c') => cursor_ok c'
+  | _ => False
+  end.
+Proof.
+  induction fuel as [|fuel IH]; intros c [Hs Hc] Hf; [lia|]. rewrite sibling_loop_S.
+  assert (Hj : exists r1, (match current c with Some cur => sibling_jump dbg (c_raw c) cur | None => Ok (c_raw c) end) = Ok r1 /\
+                          state_ok r1 /\ (length (r_in r1) <= length (r_in (c_raw c)))%nat).
+  { unfold current. destruct (is_null (c_cur c)); [exists (c_raw c); split; [reflexivity|split; [exact Hs|lia]]|].
+    apply sibling_jump_inv; assumption. }
+  destruct Hj as (r1 & -> & Hs1 & Hl1). cbn [bind]. unfold sib_half.
+  assert (Hc1 : cursor_ok (mkCur r1 (c_cur c))).
+  { split; cbn [c_raw c_cur]; [exact Hs1|]. apply (depth_ok_shorter _ (r_in (c_raw c))); assumption. }
+  pose proof (next_entry_inv dbg e tbl _ Hc1) as H.
+  destruct (next_entry dbg e tbl (mkCur r1 (c_cur c))) as [[[|] c'|x c']| | |]; cbn [bind]; try contradiction.
+  - destruct H as [H1 H2]. cbn [c_raw] in H2. destruct (d_depth (c_cur c') =? T)%Z; [exact H1|].
+    apply IH; [exact H1|lia].
+  - tauto.
+  - tauto.
+Qed.
+
+(* the cursor steps of the public API, from any state satisfying the invariant *)
+Lemma cursor_steps_total dbg e tbl c : cursor_ok c ->
+  (forall r, next_entry dbg e tbl c = r -> r <> Panic /\ r <> OutOfFuel) /\
+  (forall r, next_dfs (cursor_fuel c) dbg e tbl c = r -> r <> Panic /\ r <> OutOfFuel) /\
+  (forall r, next_sibling (cursor_fuel c) dbg e tbl c = r -> r <> Panic /\ r <> OutOfFuel).
+Proof.
+  intros Hc. split; [|split]; intros r <-.
+  - pose proof (next_entry_inv dbg e tbl c Hc) as H.
+    destruct (next_entry dbg e tbl c) as [[[|] c'|x c']| | |]; try contradiction; split; discriminate.
+  - pose proof (next_dfs_inv dbg e tbl (cursor_fuel c) c Hc ltac:(unfold cursor_fuel; lia)) as H.
+    destruct (next_dfs (cursor_fuel c) dbg e tbl c) as [[o c'|x c']| | |]; try contradiction; split; discriminate.
+  - unfold next_sibling. destruct (current c); [|split; discriminate].
+    pose proof (sibling_loop_inv dbg e tbl (d_depth d) (cursor_fuel c) c Hc ltac:(unfold cursor_fuel; lia)) as H.
+    destruct (sibling_loop (cursor_fuel c) dbg e tbl (d_depth d) c) as [[o c'|x c']| | |]; try contradiction; split; discriminate.
+Qed.
+
+(* the invariant holds for every cursor the API hands out on a slice shorter than 2^63 bytes *)
+Lemma cursor_new_ok dbg input offset c :
+  offset + nlen input < two63 -> cursor_new dbg input offset = Ok c -> cursor_ok c.
+Proof.
+  intros H. unfold cursor_new, raw_new, chk_add. change (2 ^ 64) with two64. unfold two63 in H. unfold two64.
+  replace (offset + nlen input <? 18446744073709551616) with true by lia. cbn [bind].
+  intros E. inversion E; subst. unfold cursor_ok, state_ok, depth_ok. cbn [c_raw c_cur r_in r_end r_depth null_die d_depth].
+  repeat split; lia.
+Qed.
